@@ -35,7 +35,7 @@ PLANETS = {'jup': (1.0, 1.0), 'neptune': (0.054, 0.35), 'heavy': (10.0, 1.2), 'e
 TLETTERS = ['iso1500', 'dec', 'inv', 'cold', 'int-dec']     # int-dec: whole numbers handed over as Python ints
 MULETTERS = ['const', 'varying', 'heavy']
 PSOURCES = ['simple', 'array-grid', 'array-mild', 'array-wild', 'array-reverse', 'file-pa', 'file-bar-col1',
-            'file-reverse']
+            'file-reverse', 'file-bar-reverse']
 MODELS = ['transmission', 'emission']
 PER_LAYER = ['temp_profile', 'density_profile', 'scaleheight_profile', 'altitude_profile',
              'gravity_profile', 'pressure_profile', 'mu_profile']
@@ -60,7 +60,7 @@ def tabulated_pressures(n, prange, letter):
     """Strictly decreasing layer pressures (Pa), surface first."""
     pmin, pmax = PRANGES[prange]
     grid = rhydro.layer_pressure(rhydro.simple_levels(n, pmin, pmax))
-    if letter in ('array-grid', 'array-reverse', 'file-pa', 'file-bar-col1', 'file-reverse'):
+    if letter in ('array-grid', 'array-reverse', 'file-pa', 'file-bar-col1', 'file-reverse', 'file-bar-reverse'):
         return grid
     lg = np.log10(grid)
     r = fx.rng('c11', letter, n)
@@ -114,6 +114,9 @@ def build_model(case):
                     f.write('# index pressure[bar]\n')
                     for i, p in enumerate(given):
                         f.write('%d %.17e\n' % (i, p / 1e5))
+                elif src == 'file-bar-reverse':        # top-down file in bar
+                    for p in given[::-1]:
+                        f.write('%.17e\n' % (p / 1e5))
                 else:
                     for p in given[::-1]:
                         f.write('%.17e\n' % p)
@@ -121,6 +124,8 @@ def build_model(case):
                 press = FilePressureProfile(path)
             elif src == 'file-bar-col1':
                 press = FilePressureProfile(path, usecols=1, skiprows=1, units='bar')
+            elif src == 'file-bar-reverse':
+                press = FilePressureProfile(path, units='bar', reverse=True)
             else:
                 press = FilePressureProfile(path, reverse=True)
     tv = temperature_values(n, case['T'])
@@ -327,7 +332,7 @@ def _struct_eval(r, live, fresh, sig):
 def hist_fn(case):
     from mc import rthist
     r = core.R(case)
-    rthist.run_history(r, case['hist'], lambda: hist_build(case), 'structure/' + case['kind'], extra_eval=_struct_eval)
+    rthist.run_history(r, case['hist'], lambda: hist_build(case), 'structure/' + case['kind'], extra_eval=_struct_eval, as_numpy=bool(case.get('np')))
     return r
 
 
@@ -351,4 +356,6 @@ def explore(ctx):
         cfgs = [('transmission', 4), ('emission', 3)]
     hcases = [{'kind': k, 'N': n, 'hist': h} for (k, n) in cfgs for h in hs]
     ctx.bounds.update(histories=len(hcases), history_depth=3 if ctx.tier == 'thorough' else 2)
+    # every single update once more with the value handed over as a numpy float64 scalar
+    hcases += [dict(c_, np=True) for c_ in hcases if len(c_['hist']) == 1]
     ctx.run_cases('hist_fn', hcases, phase='histories')
